@@ -175,33 +175,7 @@ func VerifH_C14_ObjectFunctions() {
 	o, ks, vs := c14Object()
 	doc := map[string]interface{}{"o": o}
 	n := len(ks)
-	switch verifChoose(8) {
-	case 7: // $keys over an array of objects lists each distinct name exactly once
-		m := 1 + verifChoose(verifParam("OBJS", 4))
-		names := []string{"a", "b", "c"}
-		objs := make([]interface{}, m)
-		present := map[string]bool{}
-		for i := range objs {
-			om := map[string]interface{}{}
-			for _, nm := range names {
-				if verifBool() {
-					om[nm] = float64(i)
-					present[nm] = true
-				}
-			}
-			objs[i] = om
-		}
-		got := hEval(`$keys(objs)`, map[string]interface{}{"objs": objs})
-		if len(present) == 0 {
-			verifAssert(got.kind == oUndefined, "keys-of-empty-objects")
-			return
-		}
-		verifAssert(got.kind == oValue, "keys-array-evaluates")
-		set, ok := c14StringSet(got.val)
-		verifAssert(ok && len(set) == len(present), "keys-array-each-once")
-		for nm := range present {
-			verifAssert(set[nm] == 1, "keys-array-each-once")
-		}
+	switch verifChoose(7) {
 	case 0: // $keys lists each member name exactly once
 		got := hEval(`$keys(o)`, doc)
 		if n == 0 {
@@ -283,5 +257,35 @@ func VerifH_C14_ObjectFunctions() {
 			sel := hEval("o."+k, doc)
 			verifAssert(got.kind == oValue && sel.kind == oValue && reflect.DeepEqual(got.val, sel.val) && reflect.DeepEqual(got.val, vs[i]), "lookup-equals-selection")
 		}
+	}
+}
+
+// VerifH_C14_KeysArray: $keys over an array of 1..4 objects with symbolic membership of the names
+// a, b, c lists each distinct name exactly once.
+func VerifH_C14_KeysArray() {
+	m := 1 + verifChoose(verifParam("OBJS", 4))
+	names := []string{"a", "b", "c"}
+	objs := make([]interface{}, m)
+	present := map[string]bool{}
+	for i := range objs {
+		om := map[string]interface{}{}
+		for _, nm := range names {
+			if verifBool() {
+				om[nm] = float64(i)
+				present[nm] = true
+			}
+		}
+		objs[i] = om
+	}
+	got := hEval(`$keys(objs)`, map[string]interface{}{"objs": objs})
+	if len(present) == 0 {
+		verifAssert(got.kind == oUndefined, "keys-of-empty-objects")
+		return
+	}
+	verifAssert(got.kind == oValue, "keys-array-evaluates")
+	set, ok := c14StringSet(got.val)
+	verifAssert(ok && len(set) == len(present), "keys-array-each-once")
+	for nm := range present {
+		verifAssert(set[nm] == 1, "keys-array-each-once")
 	}
 }
